@@ -288,6 +288,14 @@ pub fn cmd_replay(args: &[String]) -> i32 {
             let mut e = json!({"ev":"Action","case":format!("{}:{}:{}:{}", ln, k, line_no, kind),"kind":kind,"key":key_str(&k.split('/').map(|x| x.to_string()).collect::<Vec<_>>()),
                                "line":line_no,"keys_before":lib.keys().map(|x| x.split('/').map(|y| y.to_string()).collect::<Vec<_>>()).collect::<Vec<_>>(),
                                "line_text": lib[k].lines().nth(*line_no as usize).unwrap_or("")});
+            // the first word of the text on the line (without heading / list / quote markers)
+            e["target_first"] = json!(lib[k]
+                .lines()
+                .nth(*line_no as usize)
+                .unwrap_or("")
+                .split_whitespace()
+                .find(|w| !w.chars().all(|c| "#>-*+".contains(c)) && !(w.ends_with('.') && w[..w.len() - 1].chars().all(|c| c.is_ascii_digit())))
+                .unwrap_or(""));
             writeln!(out, "{}", json!({"ev":"Begin","ln":ln,"case":e["case"],"kind":e["kind"],"line_text":e["line_text"]})).unwrap();
             out.flush().unwrap();
             match s.resolve(a) {
